@@ -1179,9 +1179,20 @@ def _run_block(r, blocks, keep=False, verbose=False):
     base, cfile, hname, linemap = r.base, r.cfile, r.hname, r.linemap
     tmo = b.timeout or TIMEOUT
     defs = ['-D' + d for d in getattr(b, 'defines', [])]
+    stale_loop = None
     if not b.bounded:
         rc, out, err, dt = sh(['goto-cc', '--function', hname, '-DBS_CANARY()='] + defs + ['-o', base + '.a.gb', cfile], 120)
-        if rc != 0:
+        if rc != 0 and 'failed to find symbol' in (err or out) and b.kind == 'function':
+            # a loop contract names a local variable that the function no longer has (the loop was rewritten): the contract
+            # cannot be applied, but the function-level clauses can still be REFUTED in the small instance, where every loop
+            # is unwound completely and loop contracts play no role.  The loop-contract lines are blanked (line numbers kept).
+            stale_loop = (err or out)[-400:]
+            ltxt = open(cfile).read().split('\n')
+            ltxt = ['' if re.match(r'\s{4,}__CPROVER_(assigns|loop_invariant|decreases)\(', l) else l for l in ltxt]
+            cfile = cfile[:-2] + '.nl.c'
+            with open(cfile, 'w') as f:
+                f.write('\n'.join(ltxt))
+        elif rc != 0:
             r.reason = 'goto-cc failed: ' + (err or out)[-1500:]
             return r
     cmd = ['goto-instrument', '--dfcc', hname]
@@ -1195,8 +1206,9 @@ def _run_block(r, blocks, keep=False, verbose=False):
     for shim in SHIM_CONTRACTS + sorted(set(re.findall(r'\b(vec_\w+_eq)\(', body_text))) + abstract_fns:
         if re.search(r'\b%s\(' % shim, body_text):
             cmd += ['--replace-call-with-contract', shim]
-    if b.bounded:
+    if b.bounded or stale_loop is not None:
         # a bounded stand-in is examined in the small instance only: the unbounded program is not built
+        # (likewise a function whose loop contract no longer fits it: refutation only)
         cmd += [base + '.a.gb', base + '.b.gb']
     else:
         try:
@@ -1258,6 +1270,25 @@ def _run_block(r, blocks, keep=False, verbose=False):
                 else:
                     r.canary = 'unknown'
                     r.status, r.reason = 'undecided', 'canary undecided in the bounded instance'
+        r.time = time.time() - t0
+        return r
+    if stale_loop is not None:
+        res_s = refute_small(r, b, cfile, hname, cmd, None, tmo, want_all=True)
+        for p in res_s or []:
+            st = p.get('status')
+            r.obligations.append({'id': p.get('property'), 'desc': p.get('description'),
+                                  'status': 'FAILURE' if st == 'FAILURE' else 'UNKNOWN',
+                                  'tags': sorted(classify(p, linemap, hname)),
+                                  'line': (p.get('sourceLocation') or {}).get('line'), 'solver': p.get('solver'),
+                                  'refuted_in': 'quantifier-free instance: every vector capped at 8 elements, loops unwound'})
+        r.obligations = [x for x in r.obligations if 'modellimit' not in x['tags'] and '.unwind.' not in (x['id'] or '')
+                         or x['status'] != 'FAILURE']
+        r.solver = ','.join(sorted({x.get('solver') or '?' for x in r.obligations}))
+        bad = [x for x in r.obligations if x['status'] == 'FAILURE']
+        if bad:
+            r.status, r.reason = 'failed', ', '.join(x['id'] for x in bad[:6])
+        else:
+            r.status, r.reason = 'undecided', 'a loop contract no longer fits the function (%s) and the loop-free small instance shows no failure' % stale_loop.strip().split('\n')[0][:200]
         r.time = time.time() - t0
         return r
     results, how = decide(base + '.b.gb', b, tmo)
